@@ -10,16 +10,18 @@ for d in sorted(glob.glob('/verif/seeded/C*')):
         continue
     meta = json.load(open(d + '/meta.json'))
     prop = meta.get('property') or name.split('-')[0]
+    chk = meta.get('checked_by') or prop   # the check that decides it (a change can break two properties)
+    tier = meta.get('tier') or 'quick'
     wt = '/tmp/wt/sweep-%s' % name
     subprocess.run('git -C /repo worktree remove --force %s 2>/dev/null; git -C /repo worktree add -q --detach %s HEAD' % (wt, wt), shell=True, check=True)
     if subprocess.run(['git', '-C', wt, 'apply', d + '/patch.diff']).returncode != 0:
         meta['caught_by'] = 'patch no longer applies to the current tree'
         rows.append((name, prop, 'n/a', ''))
     else:
-        p = subprocess.run(['./vc', 'check', prop, '--tier', 'quick'], cwd='/verif', capture_output=True, text=True, env=dict(os.environ, VERIF_REPO=wt))
+        p = subprocess.run(['./vc', 'check', chk, '--tier', tier], cwd='/verif', capture_output=True, text=True, env=dict(os.environ, VERIF_REPO=wt))
         keys = sorted(set(re.findall(r'^  key=(.*)$', p.stdout, re.M)))
-        caught = p.returncode == 1 and 'VIOLATION property=%s' % prop in p.stdout
-        meta['caught_by'] = {'check': './vc check %s --tier quick' % prop, 'exit_code': p.returncode, 'caught': caught, 'violation_keys': keys[:6]}
+        caught = p.returncode == 1 and 'VIOLATION property=%s' % chk in p.stdout
+        meta['caught_by'] = {'check': './vc check %s --tier %s' % (chk, tier), 'exit_code': p.returncode, 'caught': caught, 'violation_keys': keys[:6]}
         rows.append((name, prop, 'caught' if caught else 'MISSED (exit %d)' % p.returncode, '; '.join(k[:90] for k in keys[:2])))
     subprocess.run('git -C /repo worktree remove --force %s; git -C /repo worktree prune' % wt, shell=True)
     json.dump(meta, open(d + '/meta.json', 'w'), indent=1)
